@@ -441,8 +441,8 @@ def b64Val (c : Char) : Option Nat :=
   else if c = '/' then some 63
   else none
 
-/-- `base64.StdEncoding.DecodeString` on input without CR/LF (padding required, trailing bits not
-checked); bytes are characters 0–255. -/
+/-- `base64.StdEncoding.DecodeString` on input from which CR/LF have been removed (`stripCRLF`; padding
+required, trailing bits not checked); bytes are characters 0–255. -/
 def b64Decode : Str → Option Str
   | [] => some []
   | [a, b, '=', '='] =>
@@ -471,10 +471,15 @@ def cutColon : Str → Option (Str × Str)
 
 def basicPrefix : Str := ['b', 'a', 's', 'i', 'c', ' ']
 
-/-- `net/http.parseBasicAuth`: case-insensitive `Basic ` prefix, base64, split at the first colon. -/
+/-- `encoding/base64` skips carriage returns and line feeds wherever they stand (also inside the
+padding); everything else that is not in the alphabet is an error. -/
+def stripCRLF (s : Str) : Str := s.filter (fun c => !(c = '\r' || c = '\n'))
+
+/-- `net/http.parseBasicAuth`: case-insensitive `Basic ` prefix, base64 (CR/LF skipped), split at the
+first colon. -/
 def parseBasicAuth (h : Str) : Option (Str × Str) :=
   if h.length < 6 || lower (h.take 6) ≠ basicPrefix then none
-  else match b64Decode (h.drop 6) with
+  else match b64Decode (stripCRLF (h.drop 6)) with
     | none => none
     | some cs => cutColon cs
 
@@ -507,5 +512,68 @@ def continues : Result → Bool
 def deviceDataOf : Result → Option (Profile × Device)
   | .ok p d => some (p, d)
   | _ => none
+
+/-! ## Glue around `Find`: addresses, the OPT record, and `ratelimitmw.Middleware.Wrap` -/
+
+/-- `netip.Addr.Unmap` on the textual form, as applied to the remote and the local address by
+`netutil.NetAddrToAddrPort` (`Wrap`, `newRequestInfo`): `::ffff:a.b.c.d[%zone]` ↦ `a.b.c.d`; every other
+address — including a zoned one such as `fe80::1%eth0` — is left as it is. -/
+def unmapIP (ip : IP) : IP :=
+  let cs := ip.toList
+  if "::ffff:".toList.isPrefixOf cs && (cs.drop 7).contains '.' then
+    String.ofList ((cs.drop 7).takeWhile (fun c => !(c = '%')))
+  else ip
+
+/-- The request as the finder sees it: both addresses unmapped. -/
+def normAddrs (rq : Req) : Req := { rq with lip := unmapIP rq.lip, rip := unmapIP rq.rip }
+
+/-- `dns.Msg.IsEdns0`: the *last* OPT record of the additional section counts. -/
+def ednsOfExtra (opts : List (List EOpt)) : Option (List EOpt) := opts.getLast?
+
+/-- What `Wrap` consults besides the device result: is the remote port 0 (spoofed), does the global
+access manager block the client address / the queried host, and does the access list of a profile
+(by ID) block this request. -/
+structure Gate where
+  port0 : Bool
+  blockedIP : Bool
+  blockedHost : Bool
+  profBlocks : Str → Bool
+
+/-- What becomes of a request in `Wrap`. -/
+inductive Served
+  /-- no response, no error, next handler not called -/
+  | dropped
+  /-- error returned to the server (SERVFAIL), next handler not called -/
+  | failed (c : ErrCls)
+  /-- request information with this device result put into the context, rate limiting and the next
+  handler run -/
+  | next (r : Result)
+
+/-- `isBlockedByAccess`, profile part: only the profile of `DeviceData()` is consulted. -/
+def profileBlocked (g : Gate) (r : Result) : Bool :=
+  match deviceDataOf r with
+  | some (p, _) => g.profBlocks p.id
+  | none => false
+
+/-- `Middleware.Wrap` up to the call of `serveWithRatelimiting`: spoof check, (find), access before the
+device result, `handleDeviceResult`. -/
+def wrap (g : Gate) (r : Result) : Served :=
+  if g.port0 then .dropped
+  else if g.blockedIP || g.blockedHost || profileBlocked g r then .dropped
+  else match r with
+    | .unknownDedicated => .dropped
+    | .error c => .failed c
+    | .none => .next .none
+    | .ok p d => .next (.ok p d)
+    | .authFail e => .next (.authFail e)
+
+/-- The profile and device the later stages (filtering, billing, query log) see. -/
+def exposed : Served → Option (Profile × Device)
+  | .next r => deviceDataOf r
+  | _ => none
+
+/-- One request through finder construction, address conversion, `Find` and `Wrap`. -/
+def serve (g : Gate) (profilesEnabled : Bool) (s : Srv) (db : DB) (rq : Req) : Served :=
+  wrap g (findIn profilesEnabled s db (normAddrs rq))
 
 end Agd.Device
